@@ -63,6 +63,26 @@ func n09GenCluster(t *rapid.T) *n09Case {
 		joined[0] = true
 	}
 	c.Ops = append(c.Ops, n09GenLock(t, keys))
+	restarts := rapid.IntRange(0, 3).Draw(t, "mayRestart") == 0
+	if rapid.IntRange(0, 7).Draw(t, "restartScenario") == 0 {
+		// workload, quiesce, restart the leader, a follower joins (mostly with an empty directory) BEFORE the leader's
+		// first new write - so that everything it gets is the restarted leader's log - then more workload
+		pre := rapid.IntRange(0, 6).Draw(t, "preRestart")
+		for i := 0; i < pre; i++ {
+			c.Ops = append(c.Ops, n09GenLock(t, keys))
+		}
+		if joined[0] {
+			c.Ops = append(c.Ops, n09Op{K: "sync"})
+		}
+		c.Ops = append(c.Ops, n09Op{K: "restart"}, n09Op{K: "join", F: 0, Wipe: rapid.IntRange(0, 3).Draw(t, "wipeAfterRestart") > 0})
+		if rapid.Bool().Draw(t, "syncAfterJoin") {
+			c.Ops = append(c.Ops, n09Op{K: "sync"})
+		}
+		for f := range joined {
+			joined[f] = f == 0
+		}
+		firstJoin = -1
+	}
 	for i := 0; i < nops; i++ {
 		if i == firstJoin && !joined[0] {
 			c.Ops = append(c.Ops, n09Op{K: "join", F: 0})
@@ -89,8 +109,14 @@ func n09GenCluster(t *rapid.T) *n09Case {
 				op.V = n09GenVal(t)
 			}
 			c.Ops = append(c.Ops, op)
-		case r < 75:
+		case r < 74:
 			c.Ops = append(c.Ops, n09Op{K: "rotate"})
+		case r < 75 && restarts:
+			// the leader comes back on its directory with an empty ring; every follower is stopped with it
+			c.Ops = append(c.Ops, n09Op{K: "restart"})
+			for f := range joined {
+				joined[f] = false
+			}
 		case r < 85:
 			f := rapid.IntRange(0, c.Followers-1).Draw(t, "f")
 			if joined[f] {
@@ -154,6 +180,7 @@ func n09ClusterClasses(info n09Info) []string {
 	add(info.fullSyncs > 1, ">1 full transfer")
 	add(info.resumes > 0, "resume by id")
 	add(info.rotations > 0, "log rotation")
+	add(info.leaderRestarts > 0, "leader restarted")
 	add(info.staleJoins > 0, "rejoin with stale directory")
 	add(info.wipeJoins > 0, "rejoin with emptied directory")
 	add(info.syncs > 1, "intermediate quiescence checks")
@@ -164,7 +191,8 @@ func n09ClusterClasses(info n09Info) []string {
 }
 
 func n09ClusterNontrivial(info n09Info) bool {
-	return (info.cutsFiles > 0 && info.cutsLive > 0) || (info.ringOverflow && (info.notFound > 0 || info.resumes > 0 || info.fullSyncs > 0))
+	return (info.cutsFiles > 0 && info.cutsLive > 0) || (info.ringOverflow && (info.notFound > 0 || info.resumes > 0 || info.fullSyncs > 0)) ||
+		(info.leaderRestarts > 0 && info.fullSyncs+info.resumes > 0)
 }
 
 func n09Inconclusive(why string) {
